@@ -52,6 +52,10 @@ pub enum Op {
     /// frame carrying `more` or not (the flag means nothing on it): nothing of it may ever be seen, and the
     /// deliveries that follow on that link are not its continuation
     Aborted { link: usize, txn: TxnRef, more: bool },
+    /// a retirement under a transaction (a disposition whose state is a transactional state) for a delivery the
+    /// resource never sent: kept with the transaction's work if the id is live and of no effect at the discharge,
+    /// refused like a post if the id is unknown or finished
+    Retire { txn: TxnRef, first: u32 },
 }
 
 #[derive(Clone, Debug)]
@@ -90,6 +94,7 @@ impl Case {
             Op::CtrlGone { ctrl, closed } => json!({"ctrl_gone": ctrl, "closed": closed}),
             Op::SessionEnd => json!({"session_end": true}),
             Op::Aborted { link, txn, more } => json!({"aborted": link, "txn": ref_json(txn), "more": more}),
+            Op::Retire { txn, first } => json!({"retire": first, "txn": ref_json(txn)}),
         }).collect::<Vec<_>>()})
     }
     pub fn from_json(j: &J) -> Option<Case> {
@@ -102,6 +107,8 @@ impl Case {
                 Some(Op::Discharge { ctrl: c.as_u64()? as usize, txn: ref_from(o.get("txn")?), fail: o.get("fail").and_then(|x| x.as_bool()) })
             } else if let Some(c) = o.get("ctrl_gone") {
                 Some(Op::CtrlGone { ctrl: c.as_u64()? as usize, closed: o.get("closed").and_then(|x| x.as_bool()).unwrap_or(true) })
+            } else if let Some(f) = o.get("retire") {
+                Some(Op::Retire { txn: ref_from(o.get("txn")?), first: f.as_u64()? as u32 })
             } else if let Some(l) = o.get("aborted") {
                 Some(Op::Aborted { link: l.as_u64()? as usize, txn: ref_from(o.get("txn")?), more: o.get("more").and_then(|x| x.as_bool()).unwrap_or(false) })
             } else if o.get("session_end").is_some() {
@@ -165,6 +172,7 @@ pub fn gen_case(rng: &mut Rng, first_frame_state_only: bool) -> Case {
                 Op::CtrlGone { ctrl, closed }
             }
             _ if rng.chance(1, 3) => Op::SessionEnd,
+            _ if rng.chance(1, 3) => Op::Retire { txn: pick_txn(rng, &usable), first: 9000 + rng.below(50) as u32 },
             _ if rng.chance(1, 2) => {
                 // an attempt that is aborted, then (mostly) a plain delivery in several frames on that link
                 let link = rng.below(data_links as u64) as usize;
@@ -657,6 +665,23 @@ pub fn run_case(case: &Case) -> Result<Observed, String> {
                         "-".to_string()
                     }
                 },
+                Op::Retire { txn, first } => {
+                    let id_bytes: Vec<u8> = match txn {
+                        TxnRef::Slot(k) => obs.ids.get(*k).cloned().unwrap_or_else(|| unknown_id.clone()),
+                        _ => unknown_id.clone(),
+                    };
+                    let st = DeliveryState::TransactionalState(TransactionalState { txn_id: TransactionId::from(id_bytes), outcome: Some(fe2o3_amqp_types::messaging::Outcome::Accepted(fe2o3_amqp_types::messaging::Accepted {})) });
+                    let d = Disposition { role: fe2o3_amqp_types::definitions::Role::Receiver, first: *first, last: None, settled: true, state: Some(st), batchable: false };
+                    sc.peer.send(0, Performative::Disposition(d), &[]).await.map_err(e)?;
+                    // nothing comes back for it unless the session ends over an unknown id
+                    sc.peer.recv_timeout = Duration::from_millis(60);
+                    let _ = sc.wait_disposition(u32::MAX).await;
+                    sc.peer.recv_timeout = Duration::from_millis(400);
+                    match &sc.session_gone {
+                        Some(c) => format!("SE:{}", c),
+                        None => "?".to_string(),
+                    }
+                }
                 Op::Aborted { link, txn, more } => {
                     let h = sc.data_handles[*link % sc.data_handles.len()];
                     let id_bytes: Option<Vec<u8>> = match txn {
@@ -808,6 +833,13 @@ pub fn oracle(case: &Case, issued: usize) -> (Vec<String>, Vec<Vec<(usize, u32)>
                 "-".into()
             }
             // nothing to see of it under a live transaction (or under none); an unknown or finished id ends the session
+            Op::Retire { txn, .. } => match txn {
+                TxnRef::Slot(k) if *k < txns.len() && txns[*k].0 == T::Live => "?".into(),
+                _ => {
+                    dead = true;
+                    "SE".into()
+                }
+            },
             Op::Aborted { txn, .. } => match txn {
                 TxnRef::None => "?".into(),
                 TxnRef::Slot(k) if *k < txns.len() && txns[*k].0 == T::Live => "?".into(),
@@ -868,6 +900,11 @@ pub fn model_line(case: &Case, obs: &Observed) -> (String, String) {
                 }
             }
             Op::SessionEnd => words.push("e".into()),
+            Op::Retire { .. } => {
+                if obs.outs.get(words_ops).map(|o| o.starts_with("SE")).unwrap_or(false) {
+                    words.push("p:999:0:0".to_string());
+                }
+            }
             Op::Aborted { link, .. } => {
                 // the model of whole posts knows nothing of attempts; one that named a dead id is a post to it
                 if obs.outs.get(words_ops).map(|o| o.starts_with("SE")).unwrap_or(false) {
@@ -903,6 +940,7 @@ pub fn check(case: &Case, obs: &Observed) -> Option<(String, String)> {
                 Op::CtrlGone { .. } => "ctrl-gone",
                 Op::SessionEnd => "session-end",
                 Op::Aborted { .. } => "aborted-attempt",
+                Op::Retire { .. } => "retirement",
             }
         };
         if got_c != want {
@@ -1562,6 +1600,12 @@ pub fn main(opts: &Opts) {
             report.count("cases_with_alternating_frames_of_two_links");
         }
         report.evaluations += 1;
+        report.count_n("ops_retirement", case.ops.iter().filter(|o| matches!(o, Op::Retire { .. })).count() as u64);
+        report.count_n("ops_aborted_attempt", case.ops.iter().filter(|o| matches!(o, Op::Aborted { .. })).count() as u64);
+        report.count_n("ops_aborted_attempt_abort_frame_with_more", case.ops.iter().filter(|o| matches!(o, Op::Aborted { more: true, .. })).count() as u64);
+        if case.repeat_tag {
+            report.count("cases_whose_continuation_transfers_repeat_the_tag");
+        }
         let has_txn_post = case.ops.iter().any(|o| matches!(o, Op::Post { txn: TxnRef::Slot(_), .. }));
         let has_end = case.ops.iter().any(|o| matches!(o, Op::Discharge { .. } | Op::CtrlGone { .. }));
         if has_txn_post && has_end {
